@@ -306,6 +306,18 @@ func runC03(c *Ctx, r *Report) {
 					f["unseen|"+p.ID(v)] = true
 				}
 			}
+			// the lookup through a membership helper: `hasKey(visited, key(e))` false
+			if call, ok := ast.Unparen(a.E).(*ast.CallExpr); ok && !a.Truth {
+				if cf := p.Callee(tr, call); cf != nil {
+					if mi, ki, ok := membershipHelper(p, p.ByObj[cf]); ok && mi < len(call.Args) && ki < len(call.Args) {
+						if mid, ok := ast.Unparen(call.Args[mi]).(*ast.Ident); ok && p.ObjOf(tr, mid) == visited {
+							if v := entryVarIn(p, tr, call.Args[ki]); v != nil {
+								f["unseen|"+p.ID(v)] = true
+							}
+						}
+					}
+				}
+			}
 		}
 	}
 	must.Node = func(n ast.Node, f Facts) {
@@ -706,4 +718,72 @@ func appendSingleSection(c *Ctx, r *Report, rule string, consequence string) {
 	if !bad {
 		r.Check(held, rule, r.Key(rule, app, "single-region", ""), app.Body.Pos(), "Append reads the heads and installs the new entry in one uninterrupted critical section", "Append does not hold the log's write lock when it installs the new entry")
 	}
+}
+
+// membershipHelper: h answers whether a key is in a map — `_, ok := m[k]; return ok`, `if _, ok := m[k]; ok
+// { return true }; return false`, or the same with the branches the other way round are NOT accepted (that
+// would be a negated membership); returns the indices of the map and key parameters.
+func membershipHelper(p *Prog, h *Fn) (mapIdx, keyIdx int, ok bool) {
+	if h == nil || h.Body == nil || h.Obj == nil {
+		return 0, 0, false
+	}
+	sig := h.Obj.Type().(*types.Signature)
+	if sig.Results().Len() != 1 || !isBoolType(sig.Results().At(0).Type()) || len(h.Body.List) != 2 {
+		return 0, 0, false
+	}
+	paramIdx := func(e ast.Expr) int {
+		id, isID := ast.Unparen(e).(*ast.Ident)
+		if !isID {
+			return -1
+		}
+		for i := 0; i < sig.Params().Len(); i++ {
+			if paramObjAny(h, i) == p.ObjOf(h, id) {
+				return i
+			}
+		}
+		return -1
+	}
+	lookup := func(st ast.Stmt) (okObj types.Object, mi, ki int) {
+		as, isAs := st.(*ast.AssignStmt)
+		if !isAs || len(as.Lhs) != 2 || len(as.Rhs) != 1 {
+			return nil, -1, -1
+		}
+		ix, isIx := ast.Unparen(as.Rhs[0]).(*ast.IndexExpr)
+		if !isIx {
+			return nil, -1, -1
+		}
+		if _, isMap := p.TypeOf(h, ix.X).Underlying().(*types.Map); !isMap {
+			return nil, -1, -1
+		}
+		oid, isID := as.Lhs[1].(*ast.Ident)
+		if !isID {
+			return nil, -1, -1
+		}
+		return p.ObjOf(h, oid), paramIdx(ix.X), paramIdx(ix.Index)
+	}
+	isIdentOf := func(e ast.Expr, o types.Object) bool {
+		id, isID := ast.Unparen(e).(*ast.Ident)
+		return isID && o != nil && p.ObjOf(h, id) == o
+	}
+	isConst := func(e ast.Expr, name string) bool {
+		id, isID := ast.Unparen(e).(*ast.Ident)
+		return isID && id.Name == name
+	}
+	ret, isRet := h.Body.List[1].(*ast.ReturnStmt)
+	if !isRet || len(ret.Results) != 1 {
+		return 0, 0, false
+	}
+	// _, ok := m[k]; return ok
+	if okObj, mi, ki := lookup(h.Body.List[0]); okObj != nil && mi >= 0 && ki >= 0 && isIdentOf(ret.Results[0], okObj) {
+		return mi, ki, true
+	}
+	// if _, ok := m[k]; ok { return true }; return false
+	if is, isIf := h.Body.List[0].(*ast.IfStmt); isIf && is.Init != nil && is.Else == nil && len(is.Body.List) == 1 {
+		if okObj, mi, ki := lookup(is.Init); okObj != nil && mi >= 0 && ki >= 0 && isIdentOf(is.Cond, okObj) {
+			if r2, isR := is.Body.List[0].(*ast.ReturnStmt); isR && len(r2.Results) == 1 && isConst(r2.Results[0], "true") && isConst(ret.Results[0], "false") {
+				return mi, ki, true
+			}
+		}
+	}
+	return 0, 0, false
 }
